@@ -184,6 +184,13 @@ class SymWorld:
     def witness(self, label='reachable'):
         return self.ctx.witness(label)
 
+    def lemma(self, cond, label, detail=None):
+        """cut rule: prove cond on this path, then use it as a hypothesis for the following obligations"""
+        ok = self.ctx.prove(cond, 'lemma: ' + label, detail)
+        if ok:
+            self.ctx.assume(cond)
+        return ok
+
     def _pairs(self, a, b, label):
         sa, sb = _nested_shape(a), _nested_shape(b)
         if sa != sb:
@@ -365,6 +372,9 @@ class ConcreteWorld:
 
     def witness(self, label='reachable'):
         return True, None
+
+    def lemma(self, cond, label, detail=None):
+        return self.prove(cond, 'lemma: ' + label, detail)
 
     def prove_shape(self, a, shape, label):
         sa = tuple(_np.shape(a))
